@@ -3,9 +3,47 @@
                    to_bytes_be/le, to_u32_digits, to_u64_digits;
    src/bigint.rs   new, from_slice, assign_from_slice, from_bytes_*, to_bytes_*, to_u32/u64_digits;
    src/bigint/convert.rs  from_signed_bytes_be/le, to_signed_bytes_be/le, twos_complement.
-   Bytes and u32 words are [Z] in [list Z].  Definitions only.  Internal sites 920-929. *)
-From BigNum Require Import Base BitDigits Iter.
+   Bytes and u32 words are [Z] in [list Z].  Definitions only.  Internal sites 920-929.
+   The zero / empty special cases of to_bytes_le / from_bytes_le and the decision points of the
+   four signed-bytes functions are read from the source on every run (tools/extractors/bytes.py
+   -> [bytes_params]); the proofs are generic under [bytes_ok]. *)
+From BigNum Require Import Base SrcLit BitDigits Iter.
 Open Scope Z_scope.
+
+(** Source-extracted decision points (tools/extractors/bytes.py). *)
+Record fsb_params := {        (* from_signed_bytes_{be,le} *)
+  fs_cmp : cmpop;             (* `Some(v) if *v > 0x7f`                  -> Cgt *)
+  fs_k : Z;                   (*                                          -> 127 *)
+  fs_neg : sign;              (* `.. => Sign::Minus`                      -> Minus *)
+  fs_pos : sign;              (* `Some(_) => Sign::Plus`                  -> Plus *)
+  fs_tc_eq : bool;            (* `if sign == Sign::Minus` is an `==`      -> true *)
+  fs_tc_sign : sign           (*                                          -> Minus *)
+}.
+Record tsb_params := {        (* to_signed_bytes_{be,le} *)
+  ts_hi_cmp : cmpop;          (* `first_byte > 0x7f`                      -> Cgt *)
+  ts_hi_k : Z;                (*                                          -> 127 *)
+  ts_exc_neg : bool;          (* `&& !( .. )` has its `!`                 -> true *)
+  ts_exc_cmp : cmpop;         (* `first_byte == 0x80`                     -> Ceq *)
+  ts_exc_k : Z;               (*                                          -> 128 *)
+  ts_exc_skip : nat;          (* `bytes.iter().skip(1).all(Zero::is_zero)`-> 1 *)
+  ts_exc_eq : bool;           (* `&& x.sign == Sign::Minus` is an `==`    -> true *)
+  ts_exc_sign : sign;         (*                                          -> Minus *)
+  ts_ext : Z;                 (* `bytes.insert(0, 0)` / `bytes.push(0)`   -> 0 *)
+  ts_tc_eq : bool;            (* `if x.sign == Sign::Minus` is an `==`    -> true *)
+  ts_tc_sign : sign           (*                                          -> Minus *)
+}.
+Record bytes_params := {
+  byp_zero_neg : bool;        (* to_bytes_le: `if self.is_zero()` is negated        -> false *)
+  byp_zero_bytes : list Z;    (* to_bytes_le: `vec![0]`                             -> [0] *)
+  byp_to_bits : Z;            (* to_bytes_le: `to_bitwise_digits_le(self, 8)`       -> 8 *)
+  byp_empty_neg : bool;       (* from_bytes_le: `if bytes.is_empty()` is negated    -> false *)
+  byp_from_bits : Z;          (* from_bytes_le: `from_bitwise_digits_le(bytes, 8)`  -> 8 *)
+  byp_fs_be : fsb_params;
+  byp_fs_le : fsb_params;
+  byp_ts_be : tsb_params;
+  byp_ts_le : tsb_params
+}.
+
 
 (** * BigUint from u32 words *)
 
@@ -25,18 +63,18 @@ Definition ufrom_slice (slice : list Z) : list Z := uassign_from_slice [] slice.
 Definition unew (digits : list Z) : list Z := uassign_from_slice [] digits.
 
 (** * BigUint from / to bytes *)
-Definition ufrom_bytes_le (bytes : list Z) : outcome (list Z) :=
-  if is_nil bytes then Ret [] else from_bitwise_digits_le bytes 8.
-Definition ufrom_bytes_be (bytes : list Z) : outcome (list Z) :=
-  if is_nil bytes then Ret [] else ufrom_bytes_le (rev bytes).
+Definition ufrom_bytes_le (p : bytes_params) (bytes : list Z) : outcome (list Z) :=
+  if blit (byp_empty_neg p) (is_nil bytes) then Ret [] else from_bitwise_digits_le bytes (byp_from_bits p).
+Definition ufrom_bytes_be (p : bytes_params) (bytes : list Z) : outcome (list Z) :=
+  if is_nil bytes then Ret [] else ufrom_bytes_le p (rev bytes).
 
-Definition uto_bytes_le (u : list Z) : outcome (list Z) :=
-  if is_nil u then Ret [0] else to_bitwise_digits_le u 8.
-Definition uto_bytes_be (u : list Z) : outcome (list Z) :=
-  do v <- uto_bytes_le u; Ret (rev v).
+Definition uto_bytes_le (p : bytes_params) (u : list Z) : outcome (list Z) :=
+  if blit (byp_zero_neg p) (is_nil u) then Ret (byp_zero_bytes p) else to_bitwise_digits_le u (byp_to_bits p).
+Definition uto_bytes_be (p : bytes_params) (u : list Z) : outcome (list Z) :=
+  do v <- uto_bytes_le p u; Ret (rev v).
 
 (** to_u32_digits = iter_u32_digits().collect(), to_u64_digits = iter_u64_digits().collect() *)
-Definition uto_u32_digits (u : list Z) : outcome (list Z) := it_collect (it_new u).
+Definition uto_u32_digits (ip : iter_params) (u : list Z) : outcome (list Z) := it_collect ip (it_new ip u).
 Definition uto_u64_digits (u : list Z) : list Z := u.
 
 (** * BigInt constructors *)
@@ -49,16 +87,16 @@ Definition iassign_from_slice (self : bigint) (s : sign) (slice : list Z) : bigi
          mkint (if is_nil d then NoSign else s) d
   end.
 
-Definition ifrom_bytes_le (s : sign) (bytes : list Z) : outcome bigint :=
-  do m <- ufrom_bytes_le bytes; Ret (from_biguint s m).
-Definition ifrom_bytes_be (s : sign) (bytes : list Z) : outcome bigint :=
-  do m <- ufrom_bytes_be bytes; Ret (from_biguint s m).
-Definition ito_bytes_le (x : bigint) : outcome (sign * list Z) :=
-  do v <- uto_bytes_le (mag x); Ret (sg x, v).
-Definition ito_bytes_be (x : bigint) : outcome (sign * list Z) :=
-  do v <- uto_bytes_be (mag x); Ret (sg x, v).
-Definition ito_u32_digits (x : bigint) : outcome (sign * list Z) :=
-  do v <- uto_u32_digits (mag x); Ret (sg x, v).
+Definition ifrom_bytes_le (p : bytes_params) (s : sign) (bytes : list Z) : outcome bigint :=
+  do m <- ufrom_bytes_le p bytes; Ret (from_biguint s m).
+Definition ifrom_bytes_be (p : bytes_params) (s : sign) (bytes : list Z) : outcome bigint :=
+  do m <- ufrom_bytes_be p bytes; Ret (from_biguint s m).
+Definition ito_bytes_le (p : bytes_params) (x : bigint) : outcome (sign * list Z) :=
+  do v <- uto_bytes_le p (mag x); Ret (sg x, v).
+Definition ito_bytes_be (p : bytes_params) (x : bigint) : outcome (sign * list Z) :=
+  do v <- uto_bytes_be p (mag x); Ret (sg x, v).
+Definition ito_u32_digits (ip : iter_params) (x : bigint) : outcome (sign * list Z) :=
+  do v <- uto_u32_digits ip (mag x); Ret (sg x, v).
 Definition ito_u64_digits (x : bigint) : sign * list Z := (sg x, uto_u64_digits (mag x)).
 
 (** * Two's complement and the signed-bytes forms *)
@@ -80,38 +118,53 @@ Definition twos_complement_be (l : list Z) : list Z := rev (twos_complement true
 
 Definition all_zero (l : list Z) : bool := forallb (fun d => d =? 0) l.
 
-Definition from_signed_bytes_le (digits : list Z) : outcome bigint :=
+(** `let sign = match digits.last() { Some(v) if *v > 0x7f => Minus, Some(_) => Plus, None => return ZERO };
+    if sign == Minus { twos_complement(copy); from_biguint(sign, from_bytes(copy)) }
+    else { from_biguint(sign, from_bytes(digits)) }` *)
+Definition from_signed_bytes_le (p : bytes_params) (digits : list Z) : outcome bigint :=
+  let f := byp_fs_le p in
   match last_opt digits with
   | None => Ret (mkint NoSign [])
   | Some v =>
-      if v >? 127 (* 0x7f *) then
-        do m <- ufrom_bytes_le (twos_complement_le digits); Ret (from_biguint Minus m)
+      let s := if cmp_eval (fs_cmp f) v (fs_k f) then fs_neg f else fs_pos f in
+      if sign_test (fs_tc_eq f) s (fs_tc_sign f) then
+        do m <- ufrom_bytes_le p (twos_complement_le digits); Ret (from_biguint s m)
       else
-        do m <- ufrom_bytes_le digits; Ret (from_biguint Plus m)
+        do m <- ufrom_bytes_le p digits; Ret (from_biguint s m)
   end.
-Definition from_signed_bytes_be (digits : list Z) : outcome bigint :=
+Definition from_signed_bytes_be (p : bytes_params) (digits : list Z) : outcome bigint :=
+  let f := byp_fs_be p in
   match digits with
   | [] => Ret (mkint NoSign [])
   | v :: _ =>
-      if v >? 127 then
-        do m <- ufrom_bytes_be (twos_complement_be digits); Ret (from_biguint Minus m)
+      let s := if cmp_eval (fs_cmp f) v (fs_k f) then fs_neg f else fs_pos f in
+      if sign_test (fs_tc_eq f) s (fs_tc_sign f) then
+        do m <- ufrom_bytes_be p (twos_complement_be digits); Ret (from_biguint s m)
       else
-        do m <- ufrom_bytes_be digits; Ret (from_biguint Plus m)
+        do m <- ufrom_bytes_be p digits; Ret (from_biguint s m)
   end.
 
-Definition to_signed_bytes_le (x : bigint) : outcome (list Z) :=
-  do bytes <- uto_bytes_le (mag x);
+(** `if b > 0x7f && !(b == 0x80 && <the other bytes>.all(is_zero) && x.sign == Minus) { extend by one byte }
+    if x.sign == Minus { twos_complement }` *)
+Definition to_signed_bytes_le (p : bytes_params) (x : bigint) : outcome (list Z) :=
+  let t := byp_ts_le p in
+  do bytes <- uto_bytes_le p (mag x);
   let last_byte := match last_opt bytes with Some b => b | None => 0 end in
   let bytes1 :=
-    if (last_byte >? 127)
-       && negb ((last_byte =? 128) && all_zero (tl (rev bytes)) && sign_eqb (sg x) Minus)
-    then bytes ++ [0] else bytes in
-  Ret (if sign_eqb (sg x) Minus then twos_complement_le bytes1 else bytes1).
-Definition to_signed_bytes_be (x : bigint) : outcome (list Z) :=
-  do bytes <- uto_bytes_be (mag x);
+    if cmp_eval (ts_hi_cmp t) last_byte (ts_hi_k t)
+       && blit (ts_exc_neg t)
+            (cmp_eval (ts_exc_cmp t) last_byte (ts_exc_k t) && all_zero (skipn (ts_exc_skip t) (rev bytes))
+             && sign_test (ts_exc_eq t) (sg x) (ts_exc_sign t))
+    then bytes ++ [ts_ext t] else bytes in
+  Ret (if sign_test (ts_tc_eq t) (sg x) (ts_tc_sign t) then twos_complement_le bytes1 else bytes1).
+Definition to_signed_bytes_be (p : bytes_params) (x : bigint) : outcome (list Z) :=
+  let t := byp_ts_be p in
+  do bytes <- uto_bytes_be p (mag x);
   let first_byte := match bytes with b :: _ => b | [] => 0 end in
   let bytes1 :=
-    if (first_byte >? 127)
-       && negb ((first_byte =? 128) && all_zero (tl bytes) && sign_eqb (sg x) Minus)
-    then 0 :: bytes else bytes in
-  Ret (if sign_eqb (sg x) Minus then twos_complement_be bytes1 else bytes1).
+    if cmp_eval (ts_hi_cmp t) first_byte (ts_hi_k t)
+       && blit (ts_exc_neg t)
+            (cmp_eval (ts_exc_cmp t) first_byte (ts_exc_k t) && all_zero (skipn (ts_exc_skip t) bytes)
+             && sign_test (ts_exc_eq t) (sg x) (ts_exc_sign t))
+    then ts_ext t :: bytes else bytes in
+  Ret (if sign_test (ts_tc_eq t) (sg x) (ts_tc_sign t) then twos_complement_be bytes1 else bytes1).
